@@ -21,8 +21,9 @@ ASSUME = [
 RECOMPUTE_BIN = [None]
 # monitors-only probes: the model comparison is not meaningful (tamperfull: the pinned x/mod reader
 # accepts a tile the model's verifying reader refuses; storm: the schedule of concurrent submitters
-# is not recorded), only the property monitors count. Value = histories per job.
-PROBES = {"tamperfull": 2, "storm": 6}
+# is not recorded; rcparallel: the real recompute-cache process runs concurrently with a round), only
+# the property monitors count. Value = histories per job.
+PROBES = {"tamperfull": 2, "storm": 6, "rcparallel": 1}
 
 
 def run_harness(hexe, seed, n, scenario, out):
@@ -49,7 +50,7 @@ def main(prop, prop_v, tier, seed, replay, scenarios, own_prefixes, known_prefix
     if hexe is None:
         p = L.write_replay(prop, "harness_build.txt", "the correspondence harness no longer compiles against /repo's working tree\n" + hlog[-6000:])
         res.violation(p, "harness build failed", no_input=True)
-    if scenarios and "recompute" in scenarios:
+    if scenarios and ("recompute" in scenarios or "rcparallel" in scenarios):
         # the real cmd/recompute-cache binary, built from /repo's working tree
         rexe, rlog = L.build_repo_binary("./cmd/recompute-cache", "recompute-cache")
         if rexe is None:
@@ -97,11 +98,12 @@ def main(prop, prop_v, tier, seed, replay, scenarios, own_prefixes, known_prefix
                 p = L.write_replay(prop, "harness_failure.txt", text)
                 res.violation(p, "correspondence harness did not run to completion", no_input=True)
                 continue
-            st, diffs, mons, hi, err = S.compare(text, mexe)
-            if job[1] in PROBES and diffs:
+            if job[1] in PROBES:
                 # monitors-only probe (see PROBES): only the property monitors are meaningful here
-                stats_total["probe:%s-model-differs" % job[1]] = stats_total.get("probe:%s-model-differs" % job[1], 0) + len(diffs)
-                diffs = []
+                st, diffs, mons, hi, err = S.monitors_only(text)
+                stats_total["probe:%s-histories" % job[1]] = stats_total.get("probe:%s-histories" % job[1], 0) + len(hi)
+            else:
+                st, diffs, mons, hi, err = S.compare(text, mexe)
             for k, v in st.items():
                 stats_total[k] = stats_total.get(k, 0) + v
             if diffs is None:
@@ -131,6 +133,8 @@ def main(prop, prop_v, tier, seed, replay, scenarios, own_prefixes, known_prefix
                     if nmon <= 3:
                         hseed = m.split("|")[1]
                         hist = [h for h in hi if h and h[0].startswith("ev|reset|%s|" % hseed)]
+                        if hist and len(hist[0]) > 3000:
+                            hist = [hist[0][:100] + ["... (%d lines omitted: monitors-only probe; re-run the harness with the seed and scenario of the first line)" % (len(hist[0]) - 400)] + hist[0][-300:]]
                         p = L.write_replay(prop, "monitor_%s.txt" % hseed,
                                            "property monitor failed on the implementation: %s\nhistory (replay: ./check %s --replay <this file>):\n%s\n" % (what, prop, "\n".join(hist[0] if hist else [])))
                         res.violation(p, "monitor: " + what[:200])
